@@ -80,14 +80,21 @@ package jsonschema
 //@   entry
 //@   requires shaped(rvof(x)) && shaped(rvof(y))
 
+//@ pred plainJ(v reflect.Value) = shaped(v) && kind(v) != 20 && kind(v) != 22
 //@ contract equalValue(x, y)
 //@   requires shaped(x) || shaped(y)
 //@   pure
+//@   ensures[C11] num: plainJ(x) && plainJ(y) && isJNum(jv(x)) && isJNum(jv(y)) ==> result == (jn(jv(x)) == jn(jv(y)))
+//@   ensures[C11] bool: plainJ(x) && plainJ(y) && isJBool(jv(x)) && isJBool(jv(y)) ==> result == (jb(jv(x)) == jb(jv(y)))
+//@   ensures[C11] str: plainJ(x) && plainJ(y) && isJStr(jv(x)) && isJStr(jv(y)) ==> result == (js(jv(x)) == js(jv(y)))
+//@   ensures[C11] null: plainJ(x) && plainJ(y) && (jv(x) == JNull || jv(y) == JNull) ==> result == (jv(x) == jv(y))
+//@   ensures[C11] mixed: plainJ(x) && plainJ(y) && typeName(jv(x)) != typeName(jv(y)) && !(isJNum(jv(x)) && isJNum(jv(y))) ==> !result
 
 //@ contract jsonNumber(v)
 //@   pure
 //@   ensures result1 ==> result0 != nil
 //@   ensures result1 ==> fresh(result0)
+//@   ensures bykind: isIntKind(kind(v)) || isUintKind(kind(v)) || isFloatKind(kind(v)) ==> result1
 //@   ensures[C08,C11] isnum: shaped(v) && kind(v) != 20 && kind(v) != 22 ==> result1 == isJNum(jv(v))
 //@   ensures[C08,C11] value: shaped(v) && result1 ==> RatVal[result0] == jn(jv(v))
 
